@@ -111,8 +111,8 @@ def c01():
         "level": "proof",
         "rule": HIST_RULE,
         "trusted": HIST_TRUST,
-        "assumptions": ["histories use default label numbering, one feature count per tree, "
-                        "branching factors >= 2, < 2^64 fingerprints (ops_wf)",
+        "assumptions": ["one feature count per tree, branching factors >= 2, < 2^64 fingerprints (ops_wf / ops_wf_l); "
+                        "C01_partition is stated for the default numbering, C01_labels* for caller-supplied labels",
                         "sparse-matrix input and global_clustering are outside the model"],
     }
 
@@ -122,7 +122,7 @@ def c08():
     import suite_sub
     return {
         "props_file": "Props/C08.v",
-        "theorems": ["C08_wellformed", "C08_meaning", "C08_every_insertion",
+        "theorems": ["C08_wellformed", "C08_wellformed_labels", "C08_meaning", "C08_every_insertion",
                      "C08_results_from_leaves", "C08_no_wrap_update", "C08_width_matters"],
         "suites": [suite_hist.suite_tree_walk, suite_hist.suite_boundary,
                    suite_hist.suite_exhaustive, suite_sub.suite_sub],
@@ -164,7 +164,8 @@ def c09():
     return {
         "props_file": "Props/C09.v",
         "theorems": ["C09_recluster", "C09_refine", "C09_fit", "C09_blocks_are_clusters", "C09_units",
-                     "C09_multiround_coarsens", "C09_multiround_stay_together", "C09_round_lists_are_files"],
+                     "C09_multiround_coarsens", "C09_multiround_stay_together", "C09_round_lists_are_files",
+                     "C09_history", "C09_history_keep", "C09_refine_side_condition_needed"],
         "model_files": ["Model/Obs.v", "Model/Multiround.v", "Gen/GMr.v", "Proofs/GenTieMr.v"],
         "suites": [suite_hist.suite_hist_api, suite_hist.suite_boundary, suite_mr.suite_mr_files],
         "search": search,
@@ -187,7 +188,8 @@ def c02():
         "props_file": "Props/C02.v",
         "theorems": ["C02_exact", "C02_aligned", "C02_merge_exact", "C02_update_exact",
                      "C02_width_holds_count", "C02_boundary_255",
-                     "C02_clusters_nonempty", "C02_centroid_is_majority"],
+                     "C02_clusters_nonempty", "C02_centroid_is_majority",
+                     "C02_exact_labels", "C02_labels_nonvacuous"],
         "suites": [suite_sub.suite_sub, suite_hist.suite_boundary, suite_hist.suite_tree_walk],
         "search": suite_hist.search_hist("C02"),
         "replay": suite_hist.replay_hist("C02"),
@@ -306,12 +308,12 @@ def c20():
         "replay": suite_monitor.replay_c20,
         "level": "proof",
         "rule": "sample sequences (repeats, short and long decimal reprs, increasing and not); the real "
-                "monitor_rss_process runs in-process with every file operation intercepted and the real "
+                "monitor (started through launch_monitor_rss_daemon with mp.Process run synchronously) runs "
+                "in-process with every file operation intercepted and the real "
                 "get_peak_memory_gib called after EVERY operation; operation sequence and reader results "
                 "compared with Model/Monitor.v; monitor-interleave: the real writer runs in a thread that "
                 "stops before each of its file operations while the real reader's own sub-steps (exists / "
-                "open / read) are interleaved with it under schedules (a, b, c, d) — all of them in the "
-                "thorough tier — followed by a second reader, compared with exec2 of the model; "
+                "open / read) are interleaved with it under schedules (a, b, c, d) followed by a second reader, compared with exec2 of the model (quick: 40, thorough: up to 400 sampled schedules per sample sequence); "
                 "non-trivial = distinct sequence with >= 2 distinct values / distinct schedule",
         "trusted": COMMON_TRUST + ["POSIX rename atomicity (os.replace) and 'an open file keeps its inode "
                                    "content' — assumptions of the model", "float repr/parse round-trips",
@@ -386,8 +388,10 @@ def c19():
         "level": "proof",
         "rule": "clusterings produced by BitBirch on noisy-prototype data; cluster_analysis over array / "
                 ".npy file / file sequence providers, packed and unpacked, top in {None,1,2,5,20}, "
-                "min_size 0-3; indices on the non-singleton clusters incl. one tall case (column sums "
-                "beyond uint8), packed vs unpacked, 2 random permutations of clusters and rows each",
+                "min_size 0-3, member lists in ascending and in adversarial orders; indices on the non-singleton "
+                "clusters incl. 2 (quick) / 8 (thorough) tall cases (column sums beyond uint8; clusters below "
+                "256 members whose sums together exceed 255) under EVERY cluster order, packed vs unpacked, 2 "
+                "random permutations of clusters and rows for the other cases",
         "trusted": COMMON_TRUST + ["NumPy's summation order in np.dot / np.sum of float arrays is not "
                                    "modelled: CHI/DBI are compared with the exact (rational) combination "
                                    "of the model's bit-exact terms within 1e-9 relative"],
@@ -442,7 +446,7 @@ def c14():
         "trusted": COMMON_TRUST + ["POSIX rename atomicity; a crash is modelled as stopping between two file "
                                    "actions (a torn single write leaves a file whose name is purged by the next run)",
                                    "translator tie for file names/globs: Gen/GMr.v + Proofs/GenTieMr.v"],
-        "assumptions": ["fexp is a universally quantified parameter of every C14 theorem",
+        "assumptions": ["fexp is a universally quantified parameter of every C14 theorem that mentions the workflow",
                         "dir_wf d0: a directory listing has distinct names (sorted by the model)"],
     }
 
@@ -509,7 +513,7 @@ def c13():
         "props_file": "Props/C13.v",
         "theorems": ["C13_popcount", "C13_unpack", "C13_unpack_1d", "C13_unpack_negative",
                      "C13_centroid_unpacked", "C13_centroid_packed", "C13_centroid_packed_nonbinary",
-                     "C13_centroid_packed_len5", "C13_isim", "C13_arr_vec", "C13_argmin",
+                     "C13_centroid_packed_len5", "C13_centroid_packed_recorded_witness", "C13_isim", "C13_arr_vec", "C13_argmin",
                      "C13_most_dissimilar", "C13_most_dissimilar_shape", "C13_nonvacuous",
                      "C13_nf_ok_nonmultiple"],
         "model_files": ["Model/Cpp.v", "Model/ObsCpp.v", "Model/Sim.v"],
